@@ -19,3 +19,6 @@ def rules(ctx):
     S.c02_r7_pending_pins(ctx)
     S.c01_r5_cow(ctx)
     S.c02_r8_clean_reads(ctx)
+    S.c01_r1_commit_protocol(ctx)
+    S.c01_r2_grow(ctx)
+    S.c01_r4_non_durable(ctx)
